@@ -378,7 +378,10 @@ class NameConverter(ast.NodeTransformer):
         ovld_mangled,
         map_mangled,
         code_mangled,
+        dyn_mangled=None,
     ):
+        self.dyn_mangled = dyn_mangled
+        self.in_comp_iter = 0
         self.analysis = anal
         # One or several names (e.g. both `recurse` and the function's own name)
         self.recurse_syms = (
@@ -403,6 +406,15 @@ class NameConverter(ast.NodeTransformer):
         else:
             return node
 
+    def visit_comprehension(self, node):
+        # Assignment expressions are not allowed in a comprehension iterable
+        self.in_comp_iter += 1
+        node.iter = self.visit(node.iter)
+        self.in_comp_iter -= 1
+        node.target = self.visit(node.target)
+        node.ifs = [self.visit(cond) for cond in node.ifs]
+        return node
+
     def visit_Call(self, node):
         if not isinstance(node.func, ast.Name) or node.func.id not in (
             *self.recurse_syms,
@@ -410,10 +422,34 @@ class NameConverter(ast.NodeTransformer):
         ):
             return self.generic_visit(node)
 
-        if any(isinstance(arg, ast.Starred) for arg in node.args):
-            return self.generic_visit(node)
-
         cn = node.func.id == self.call_next_sym
+
+        if (
+            self.in_comp_iter
+            or any(isinstance(arg, ast.Starred) for arg in node.args)
+            or any(kw.arg is None for kw in node.keywords)
+        ):
+            # The shape of the call is not known statically, or temporaries
+            # cannot be used here: compute the lookup key at run time
+            if self.dyn_mangled is None:  # pragma: no cover
+                return self.generic_visit(node)
+            head = [
+                ast.Name(id=self.code_mangled, ctx=ast.Load())
+                if cn
+                else ast.Constant(value=None)
+            ]
+            if self.analysis.is_method:
+                head.append(ast.Name(id="self", ctx=ast.Load()))
+            new_node = ast.Call(
+                func=ast.Name(id=self.dyn_mangled, ctx=ast.Load()),
+                args=head + [self.visit(arg) for arg in node.args],
+                keywords=[
+                    ast.keyword(arg=kw.arg, value=self.visit(kw.value))
+                    for kw in node.keywords
+                ],
+            )
+            return ast.copy_location(old_node=node, new_node=new_node)
+
         tmp = f"__TMP{next(self.count)}_"
 
         def _make_lookup_call(key, arg):
@@ -516,6 +552,21 @@ def adapt_function(fn, ovld, newname):
         return rename_function(fn, newname)
 
 
+def make_dynamic_call(ovld):
+    """Call through the ovld's map with a lookup key computed at run time."""
+
+    def dynamic_call(code, *args, **kwargs):
+        anal = ovld.argument_analysis
+        values = args[1:] if anal.is_method else args
+        key = tuple(anal.lookup_for(i)(arg) for i, arg in enumerate(values))
+        key += tuple((k, anal.lookup_for(k)(v)) for k, v in kwargs.items())
+        if code is not None:
+            key = (code, *key)
+        return ovld.map[key](*args, **kwargs)
+
+    return dynamic_call
+
+
 def closure_wrap(tree, fname, names):
     wrap = ast.copy_location(
         ast.FunctionDef(
@@ -546,6 +597,7 @@ def recode(fn, ovld, recurse_sym, call_next_sym, newname):
     ovld_mangled = f"___OVLD{ovld.id}"
     map_mangled = f"___MAP{ovld.id}"
     code_mangled = f"___CODE{next(_current)}"
+    dyn_mangled = f"___DYN{ovld.id}"
     try:
         src = inspect.getsource(fn)
     except OSError:  # pragma: no cover
@@ -563,6 +615,7 @@ def recode(fn, ovld, recurse_sym, call_next_sym, newname):
         ovld_mangled=ovld_mangled,
         map_mangled=map_mangled,
         code_mangled=code_mangled,
+        dyn_mangled=dyn_mangled,
     ).visit(tree)
     new.body[0].decorator_list = []
     if fn.__closure__:
@@ -589,4 +642,5 @@ def recode(fn, ovld, recurse_sym, call_next_sym, newname):
     new_fn.__globals__[ovld_mangled] = ovld.dispatch
     new_fn.__globals__[map_mangled] = ovld.map
     new_fn.__globals__[code_mangled] = new_fn.__code__
+    new_fn.__globals__[dyn_mangled] = make_dynamic_call(ovld)
     return new_fn
